@@ -8,6 +8,50 @@ import TbotVerif.Spec.Shell
 namespace C01
 open Chan Shell Spec
 
+/-! ### (1) LOCALITY, in closed form -/
+
+theorem eq_app (s : St) (sc1 sc2 : List Piece) (h : s.script = sc1 ++ sc2) :
+    s = app { s with script := sc1 } sc2 := by
+  cases s
+  simp only at h
+  subst h
+  rfl
+
+/-- **(1) `read(n)` only touches the head of the script**: when the script is `sc1 ++ sc2` and
+    `0 < n ≤ |flat sc1|` (no timeout, no death string), `read(n)` returns the first `n` bytes —
+    exactly what it returns on `sc1` alone — and leaves `rest1 ++ sc2`, where `rest1` is what it
+    leaves of `sc1` alone (`flat rest1` = the other bytes of `sc1`) -/
+theorem read_local (s : St) (sc1 sc2 : List Piece) (n : Nat) (hs : s.script = sc1 ++ sc2) (hn : 0 < n)
+    (hle : n ≤ (flat sc1).length) (hd : s.deaths = []) (hwf : ∀ q ∈ sc1, q.data ≠ []) (hc : 0 < s.chunk) :
+    ∃ s1 : St, Chan.read (some n) none { s with script := sc1 } = (.ok ((flat sc1).take n), s1)
+      ∧ Chan.read (some n) none s = (.ok ((flat sc1).take n), app s1 sc2)
+      ∧ flat s1.script = (flat sc1).drop n ∧ WF s1 := by
+  have hlen : ((flat sc1).take n).length = n := by rw [List.length_take]; omega
+  have hne : (flat sc1).take n ≠ [] := by
+    intro h; rw [h] at hlen; simp at hlen; omega
+  obtain ⟨s1, hrd, hfl, hwf1, _⟩ := read_exact { s with script := sc1 } ((flat sc1).take n) ((flat sc1).drop n)
+    hne hd hwf hc (List.take_append_drop _ _).symm
+  rw [hlen] at hrd
+  refine ⟨s1, hrd, ?_, hfl, hwf1⟩
+  have := read_some_app n none _ sc2 _ _ hrd
+  rw [← eq_app s sc1 sc2 hs] at this
+  exact this
+
+/-- **(1) `read_until_prompt` only touches the head of the script**: when the script is
+    `sc1 ++ sc2`, `sc1` holds `w`, and the literal prompt `p` occurs in `w` at the end and only
+    there, the call returns `w` minus the prompt — exactly as on `sc1` alone — and leaves `sc2` -/
+theorem rup_local (p w : Bytes) (hp : p ≠ []) (hsuf : p <:+ w) (honly : NoEarly p w)
+    (s : St) (sc1 sc2 : List Piece) (hs : s.script = sc1 ++ sc2) (hflat : flat sc1 = w)
+    (hpr : s.prompt = some (.lit p)) (hd : s.deaths = []) (hwf : ∀ q ∈ sc1, q.data ≠ []) (hc : 0 < s.chunk) :
+    ∃ s1 : St, readUntilPrompt none none { s with script := sc1 } = (.ok (w.take (w.length - p.length), w), s1)
+      ∧ s1.script = []
+      ∧ readUntilPrompt none none s = (.ok (w.take (w.length - p.length), w), app s1 sc2) := by
+  obtain ⟨s1, hr, hsc, _⟩ := rup_exact p w hp hsuf honly { s with script := sc1 } hpr hd hwf hc hflat
+  refine ⟨s1, hr, hsc, ?_⟩
+  have := readUntilPrompt_app none none _ sc2 _ _ hr
+  rw [← eq_app s sc1 sc2 hs] at this
+  exact this
+
 /-- the channel is idle at the configured prompt: literal prompt `ps1`, no death string, no log
     stream attached, nothing held back, usable chunk/slice/slow-send configuration -/
 structure InSync (ps1 : Bytes) (s : St) : Prop where
